@@ -449,3 +449,291 @@ class C03World(PcWorld):
 
 def run_c03(spec):
     return run_world(spec, gen_c03, C03World)
+
+
+# ===========================================================================
+# C14: JSEP state machine under arbitrary call programs
+# ===========================================================================
+C14_OPS = ["createOffer", "createOffer", "createAnswer", "setLocal:offer", "setLocal:offer", "setLocal:offer-stale",
+           "setLocal:answer", "setLocal:answer", "setLocal:answer-stale", "setLocal:answer-mismatched", "setLocal:implicit",
+           "setRemote:offer", "setRemote:offer", "setRemote:offer", "setRemote:answer", "setRemote:answer",
+           "setRemote:mismatched", "setRemote:defective-offer", "setRemote:defective-answer", "close"]
+DEFECTS = ["no-ufrag", "no-pwd", "no-rtcp-mux", "answer-actpass"]
+
+
+def gen_c14(ch, spec):
+    cfg = {"world": "c14", "layout": ch.choice("cfg", ["audio+dc", "audio", "dc", "video+audio+dc"]),
+           "bundle": ch.choice("cfg", ["balanced", "max-bundle", "max-compat"]),
+           "sig_delay": 0.0, "net_base": ch.choice("cfg", [0.001, 0.05]),
+           "sched": ch.chance("cfg", 0.7, True), "stall_rate": 0.0, "stall_max": 0.0}
+    n = ch.choice("wl", [3, 5, 8, 12])
+    ops = []
+    for _ in range(n):
+        name = ch.choice("wl", C14_OPS)
+        op = {"op": name, "side": ch.choice("wl", ["A", "B"]), "dt": ch.choice("wl", [0.0, 0.0, 0.01, 0.5, 5.0])}
+        if "defective" in name:
+            op["defect"] = ch.choice("wl", DEFECTS)
+        if "mismatched" in name:
+            op["how"] = ch.choice("wl", ["drop-section", "rename-mid", "extra-section"])
+        if name == "close" and ch.chance("wl", 0.6):
+            continue        # keep closes rare so that programs get somewhere
+        ops.append(op)
+    # a conversation skeleton in a share of runs, so that deep states are reached
+    if ch.chance("wl", 0.5):
+        a, b = ch.choice("wl", [("A", "B"), ("B", "A")])
+        skel = [{"op": "createOffer", "side": a, "dt": 0.0}, {"op": "setLocal:offer", "side": a, "dt": 0.0},
+                {"op": "setRemote:offer", "side": b, "dt": 0.0}, {"op": "createAnswer", "side": b, "dt": 0.0},
+                {"op": "setLocal:answer", "side": b, "dt": 0.0}, {"op": "setRemote:answer", "side": a, "dt": 0.0}]
+        pos = 0
+        for s in skel:
+            pos = pos + ch.index("wl", max(1, len(ops) - pos + 1))
+            ops.insert(min(pos, len(ops)), s)
+            pos += 1
+    return cfg, ops
+
+
+def reflect_answer(offer_text):
+    """An answer that mirrors an offer section by section (same codecs, mids, BUNDLE), with a definite role."""
+    return offer_text.replace("a=setup:actpass", "a=setup:active")
+
+
+def split_sections(text):
+    head, *rest = text.split("\r\nm=")
+    return head, ["m=" + r for r in rest]
+
+
+def join_sections(head, secs):
+    return head + "".join("\r\n" + s for s in secs)
+
+
+def mismatch(text, how):
+    head, secs = split_sections(text)
+    if how == "drop-section" and len(secs) >= 2:
+        secs = secs[:-1]
+    elif how == "extra-section":
+        secs = secs + [secs[-1].replace("a=mid:", "a=mid:9")]
+    else:
+        secs = [secs[0].replace("a=mid:", "a=mid:7")] + secs[1:]
+    return join_sections(head, secs)
+
+
+def make_defective(text, defect):
+    import re as _re
+    if defect == "no-ufrag":
+        return _re.sub(r"a=ice-ufrag:[^\r\n]*\r\n", "", text)
+    if defect == "no-pwd":
+        return _re.sub(r"a=ice-pwd:[^\r\n]*\r\n", "", text)
+    if defect == "no-rtcp-mux":
+        return text.replace("a=rtcp-mux\r\n", "")
+    return text.replace("a=setup:active", "a=setup:actpass").replace("a=setup:passive", "a=setup:actpass")
+
+
+class C14World(PcWorld):
+    def snapshot(self, pc):
+        ld, rd = pc.localDescription, pc.remoteDescription
+        return (pc.signalingState, (ld.type, ld.sdp) if ld else None, (rd.type, rd.sdp) if rd else None)
+
+    async def main(self):
+        cfg = self.cfg
+        side_cfg = {"bundle": cfg["bundle"], "items": [], "dc": "dc" in cfg["layout"], "dc_first": False}
+        for kind in ("video", "audio"):
+            if kind in cfg["layout"]:
+                side_cfg["items"].append({"kind": kind, "how": "transceiver_kind", "direction": "sendrecv", "prefs": None})
+        self.model = {}
+        self.fresh_offer = {"A": None, "B": None}     # (text) created since the last state change
+        self.fresh_answer = {"A": None, "B": None}
+        self.old_offers = {"A": [], "B": []}
+        self.old_answers = {"A": [], "B": []}
+        for n in "AB":
+            self.ep[n] = Endpoint(self, n, side_cfg)
+            self.ep[n].setup()
+            self.model[n] = "stable"
+        for op in self.ops:
+            if op.get("dt"):
+                await asyncio.sleep(op["dt"])
+            await self.step(op)
+            if self.violations:
+                break
+        self.link_faults(self.fabric.links)
+
+    def media_sections(self, text):
+        return len(split_sections(text)[1])
+
+    async def step(self, op):
+        n = op["side"]
+        peer = "B" if n == "A" else "A"
+        pc = self.ep[n].pc
+        st = self.model[n]
+        name = op["op"]
+        before = self.snapshot(pc)
+        expect = None            # "ok" | set of acceptable exception names
+        new_state = st
+        call = None
+        desc_note = ""
+        if name == "createOffer":
+            expect = "ok" if st != "closed" else {"InvalidStateError"}
+            call = pc.createOffer
+        elif name == "createAnswer":
+            expect = "ok" if st == "have-remote-offer" else {"InvalidStateError"}
+            call = pc.createAnswer
+        elif name == "close":
+            expect, new_state, call = "ok", "closed", pc.close
+        elif name.startswith("setLocal:"):
+            kind = name.split(":")[1]
+            if kind == "implicit":
+                if st == "closed":
+                    expect = {"InvalidStateError"}
+                elif st == "have-remote-offer":
+                    expect, new_state = "ok", "stable"
+                else:
+                    expect, new_state = "ok", "have-local-offer"
+                call = lambda: pc.setLocalDescription()   # noqa: E731
+            elif kind.startswith("offer"):
+                legal = st in ("stable", "have-local-offer")
+                if kind == "offer":
+                    text = self.fresh_offer[n]
+                    if text is None:
+                        return self.skip(op)
+                else:
+                    # a stale offer is only a clean probe when the state already forbids an offer
+                    if legal or not self.old_offers[n]:
+                        return self.skip(op)
+                    text = self.old_offers[n][0]
+                expect, new_state = ("ok", "have-local-offer") if legal else ({"InvalidStateError"}, st)
+                call = lambda: pc.setLocalDescription(RTCSessionDescription(sdp=text, type="offer"))   # noqa: E731
+            else:
+                legal = st == "have-remote-offer"
+                if kind == "answer":
+                    text = self.fresh_answer[n]
+                    if text is None:
+                        return self.skip(op)
+                elif kind == "answer-stale":
+                    pool = self.old_answers[n] or ([reflect_answer(self.old_offers[peer][0])] if self.old_offers[peer] else [])
+                    if legal or not pool:
+                        return self.skip(op)
+                    text = pool[0]
+                else:
+                    if not legal or self.fresh_answer[n] is None:
+                        return self.skip(op)
+                    text = mismatch(self.fresh_answer[n], op.get("how", "rename-mid"))
+                    desc_note = "mismatched"
+                if desc_note == "mismatched":
+                    expect = {"ValueError"}
+                else:
+                    expect, new_state = ("ok", "stable") if legal else ({"InvalidStateError"}, st)
+                call = lambda: pc.setLocalDescription(RTCSessionDescription(sdp=text, type="answer"))   # noqa: E731
+        elif name.startswith("setRemote:"):
+            kind = name.split(":")[1]
+            ppc = self.ep[peer].pc
+            if kind in ("offer", "defective-offer"):
+                legal = st in ("stable", "have-remote-offer")
+                text = None
+                if self.model[peer] == "have-local-offer" and ppc.localDescription is not None:
+                    text = ppc.localDescription.sdp
+                elif self.fresh_offer[peer] is not None:
+                    text = self.fresh_offer[peer]
+                if text is None:
+                    return self.skip(op)
+                # the peer's sections must be the ones this side already has (same layouts by construction);
+                # a shorter re-offer than the established session is not a negotiable input
+                cur = pc.remoteDescription or pc.localDescription
+                if cur is not None and self.media_sections(cur.sdp) != self.media_sections(text):
+                    return self.skip(op)
+                if kind == "defective-offer":
+                    if op["defect"] == "answer-actpass":
+                        return self.skip(op)
+                    text2 = make_defective(text, op["defect"])
+                    if text2 == text:
+                        return self.skip(op)
+                    text = text2
+                    expect = {"ValueError"} if legal else {"ValueError", "InvalidStateError"}
+                else:
+                    expect, new_state = ("ok", "have-remote-offer") if legal else ({"InvalidStateError"}, st)
+                call = lambda: pc.setRemoteDescription(RTCSessionDescription(sdp=text, type="offer"))   # noqa: E731
+            else:
+                legal = st == "have-local-offer"
+                src = None
+                if pc.localDescription is not None and pc.localDescription.type == "offer":
+                    src = pc.localDescription.sdp
+                elif self.old_offers[n]:
+                    src = self.old_offers[n][-1]
+                if src is None:
+                    return self.skip(op)
+                text = reflect_answer(src)
+                if kind == "mismatched":
+                    if self.media_sections(text) < 1:
+                        return self.skip(op)
+                    text = mismatch(text, op.get("how", "rename-mid"))
+                    expect = {"ValueError"} if legal else {"ValueError", "InvalidStateError"}
+                elif kind == "defective-answer":
+                    text2 = make_defective(text, op["defect"])
+                    if text2 == text:
+                        return self.skip(op)
+                    text = text2
+                    expect = {"ValueError"} if legal else {"ValueError", "InvalidStateError"}
+                else:
+                    expect, new_state = ("ok", "stable") if legal else ({"InvalidStateError"}, st)
+                call = lambda: pc.setRemoteDescription(RTCSessionDescription(sdp=text, type="answer"))   # noqa: E731
+        if call is None:
+            return self.skip(op)
+        exc, value = await self.call(n, call)
+        got = "ok" if exc is None else type(exc).__name__
+        self.log.add("call", n, name, st, got)
+        self.probes["calls"] += 1
+        self.probes["calls_in_" + st] += 1
+        self.note_state("%s|%s" % (self.model["A"], self.model["B"]))
+        after = self.snapshot(pc)
+        if expect == "ok":
+            if exc is not None:
+                self.violation("C14", "legal-call-raised:%s:%s:%s" % (name, st, exc_tag(exc)),
+                               "%s %s in state %s raised %r" % (n, name, st, exc))
+                return
+            self.model[n] = new_state
+            if pc.signalingState != new_state:
+                self.violation("C14", "wrong-state-after-legal-call:%s:%s" % (name, st),
+                               "%s: signalingState %s, the JSEP table says %s" % (n, pc.signalingState, new_state))
+                return
+            if name == "createOffer":
+                self.fresh_offer[n] = value.sdp
+                self.old_offers[n].append(value.sdp)
+            elif name == "createAnswer":
+                self.fresh_answer[n] = value.sdp
+                self.old_answers[n].append(value.sdp)
+            if new_state != st:
+                self.fresh_offer[n] = None
+                self.fresh_answer[n] = None
+            self.probes["legal_calls"] += 1
+            return
+        # an illegal / mismatched / defective call
+        self.probes["illegal_calls"] += 1
+        if exc is None:
+            self.violation("C14", "illegal-call-accepted:%s:%s" % (name + ("/" + op.get("defect", op.get("how", "")) if
+                                                                          ("defect" in op or "how" in op) else ""), st),
+                           "%s %s in state %s succeeded, expected %s" % (n, name, st, sorted(expect)))
+            return
+        if got not in expect:
+            self.violation("C14", "illegal-call-raised-wrong-error:%s:%s:%s" % (name, st, got),
+                           "%s %s in state %s raised %r, expected %s" % (n, name, st, exc, sorted(expect)))
+            return
+        self.probes["rejected_" + got] += 1
+        if after != before:
+            which = [w for w, a, b in zip(("signalingState", "localDescription", "remoteDescription"), before, after) if a != b]
+            self.violation("C14", "rejected-call-had-side-effects:%s:%s:%s" % (name, st, ",".join(which)),
+                           "%s %s in state %s raised %s but changed %s" % (n, name, st, got, which))
+
+    def skip(self, op):
+        self.probes["ops_skipped"] += 1
+
+    def config_class(self):
+        return "%s/%s" % (self.cfg["layout"], self.cfg["bundle"])
+
+    def nontrivial(self):
+        return self.probes.get("calls", 0) >= 2 and self.probes.get("illegal_calls", 0) + self.probes.get("legal_calls", 0) > 0
+
+    def sample(self):
+        return {"calls": self.probes.get("calls", 0), "legal": self.probes.get("legal_calls", 0),
+                "illegal": self.probes.get("illegal_calls", 0), "final_states": dict(self.model)}
+
+
+def run_c14(spec):
+    return run_world(spec, gen_c14, C14World)
